@@ -1109,7 +1109,7 @@ func (b *Builder) GenMethod(name string) *Method {
 	if !reverse && b.chance(p.PExtras) {
 		n := 1 + b.R.Intn(2)
 		for i := 0; i < n; i++ {
-			pt := []string{"int", "string", "ext.Shape", "*LShape", "bool"}[b.R.Intn(5)]
+			pt := []string{"int", "string", "ext.Shape", "*LShape", "bool", "[]ext.Shape", "map[string]*LShape"}[b.R.Intn(7)]
 			pr := Param{Type: pt}
 			if named {
 				pr.Name = fmt.Sprintf("x%d", i)
